@@ -30,7 +30,9 @@ ALL = {
             KERNEL + "Decided: every single-page primitive the tree algorithms are built from - leaf build/read, binary search, in-place "
             "insert / remove / replace / remove_indices, branch routing, page-number order - equals a list model and an independent "
             "decoder for ALL byte contents over a table of concrete shapes (64-byte pages, <= 3 pairs, lengths 0..=3, all four "
-            "fixed/variable width combinations incl. zero-width values).",
+            "fixed/variable width combinations incl. zero-width values); the size policies (split required, fits one page, merge threshold, "
+            "branch size) equal the documented layout arithmetic for ALL counts, byte totals, widths and page sizes; in-place insert / "
+            "replace admission agrees with the mutators to the byte at the exact-fit boundary (large pages: append only).",
             NOTE_COMMON + " Lengths, counts and positions are case-split (they become memcpy sizes); contents symbolic."),
     "C08": ("DESIGN.md 4 C08, 9.3",
             KERNEL + "Decided: CheckedBackend's failure latch for any 4 operations with a failure at any call; the real commit() with a "
@@ -52,16 +54,21 @@ ALL = {
             KERNEL + "Decided: slot selection equals the documented table; any altered byte of a commit slot is detected and a corrupt "
             "slot is never re-serialised as valid; header parsing is total on arbitrary 320 bytes and file length and an accepted layout "
             "spans exactly the file; leaf/branch checksum functions are total on arbitrary pages; top-down verification "
-            "(RawBtree::verify_checksum) of depth <= 2 trees with arbitrary page contents returns true only if every page's checksum "
-            "can be computed and equals the stored one.",
+            "(RawBtree::verify_checksum) of a single-page tree with arbitrary page contents returns true only if the page's checksum "
+            "can be computed and equals the stored one. Trees of depth >= 2 (that EVERY child of a branch is visited) did not close "
+            "and are NOT claimed (DESIGN.md 9.1, 9.4).",
             NOTE_COMMON + " Injective-checksum assumption as C01."),
     "C14": ("DESIGN.md 4 C14, 9.3",
-            "Decided directly for the buddy allocator and its bitmaps: one inductive step of alloc, free, record_alloc, new and the "
+            "Decided directly for the buddy allocator and its bitmaps: one inductive step of alloc, free, record_alloc, resize, new and the "
             "queries from an ARBITRARY state satisfying the representation invariant R (every bitmap word symbolic), so histories of "
             "any length are covered by induction within the region-size bound: blocks handed out are in range and were entirely free, "
             "the free set changes by exactly the block, refusal only when no aligned free run exists, maximal merging (R re-established), "
-            "alloc;free is the identity. Region capacity 16 (lengths 6, 11, 13, 16 quick; all 1..16 and capacity 128 thorough). "
-            "alloc_lowest, resize, the allocator-level codec and the region tracker did not close and are NOT claimed (DESIGN.md 9.1).",
+            "alloc;free is the identity; resize keeps every surviving page's state, frees exactly the added pages and re-establishes R. "
+            "Region capacity 16 (lengths 6, 11, 13, 16 quick; all 1..16 and capacity 128 thorough). Region tracker: one step of "
+            "mark_free / mark_full / find_free from any tracker state changes / reads exactly the documented bits, which together with "
+            "the allocator steps keeps the tracker optimistic (never full for a region with a suitable block) by composition; dropped "
+            "regions are marked full at every order. The glue inside allocate_helper_retry / free_helper, alloc_lowest and the "
+            "allocator-level codec did not close and are NOT claimed (DESIGN.md 9.1).",
             NOTE_COMMON + " Invariant R is assumed of the pre-state and asserted of the post-state; `new` establishes it."),
     "C15": ("DESIGN.md 4 C15, 9.3",
             "Decided directly per built-in key type: compare(enc a, enc b) equals the value order (independent oracle: the type's own "
